@@ -197,6 +197,20 @@ def correspond(ctx, scale=1):
         sigs.add(("emed", len(c[2]) > 1, c[0] < 16, c[1] > 1))
         if a_.strip() != b_.strip():
             mm.append({"key": "eratmedium", "what": "EratMedium(sieve %d bytes, %d segments, states (prime, multipleIndex, wheelIndex) %s): implementation %s..., model %s..." % (c[0], c[1], c[2], a_[:160], b_[:160]), "failing_input": None})
+    # SievingPrimes' tiny sieve (C04_tiny_sieve_spec, C12_tiny_read_in_range): the real table vs the model, for stops around the
+    # threshold 165^4 at which it is first built and at every magnitude
+    tq = [165 ** 4 - 1, 165 ** 4, 165 ** 4 + 1, 166 ** 4 - 1, 166 ** 4, 10 ** 9, 10 ** 12, 10 ** 15, (1 << 64) - 1, 7, 100, 27225, 741255075, 741255076]
+    tq += [rng.below(1 << rng.between(20, 64)) for _ in range(20 * min(scale, 3))]
+    rc, o, e = ps.run([kp], input="".join("TINY %d\n" % c for c in tq), timeout=300)
+    rcm, om, emt = ps.run([model], input="".join("LEAF tiny %d\n" % c for c in tq), timeout=600)
+    dist["tiny_sieve_units"] = len(tq)
+    if len(o.splitlines()) != len(tq) or len(om.splitlines()) != len(tq):
+        mm.append({"key": "tiny-sieve", "what": "tiny sieve comparison did not run: %d implementation results, %d model results for %d cases (%s)" % (len(o.splitlines()), len(om.splitlines()), len(tq), (e or emt)[-200:]), "failing_input": None})
+    for c, a_, b_ in zip(tq, o.splitlines(), om.splitlines()):
+        ev += 1
+        sigs.add(("tiny", a_.split()[0] if a_.split() else "?", c > 10 ** 12))
+        if a_.strip() != b_.strip():
+            mm.append({"key": "tiny-sieve", "what": "SievingPrimes::tinySieve_ for an Erat with stop %d: implementation %s..., model %s..." % (c, a_[:140], b_[:140]), "failing_input": None})
     # pre-sieve unit level: PreSieve::preSieve on segments at every magnitude (incl. segmentLow <= 163 and the wrap-around of every
     # table) vs the model over the extracted tables
     pc = [(0, 40), (30, 20), (150, 10), (180, 10), (30 * 5957 - 60, 30), (30 * 6683 - 30, 64)]
